@@ -293,11 +293,35 @@ def gen_coef(rng):
             return [core.rat(re), core.rat(im)]
 
 
+class UsedSet(set):
+    """canonical keys of the basis states already used in a case + the real states (for `native_clash`)"""
+    def __init__(self):
+        super().__init__()
+        self.states = []
+
+
+def native_clash(st, others):
+    """exqalibur's equality of basic states that mix annotated and un-annotated photons is not symmetric (observed:
+    `BasicState('|{_:0}1,1>') == BasicState('|{_:0}{_:1},1>')` is True, the reverse False), so a StateVector or an
+    SVDistribution holding both keeps one or two components depending on the ORDER of insertion.  That is a property
+    of the external container, not of the simulation: two states that the native `==` identifies in either direction
+    are never put into one case."""
+    if not is_mixed(st) and not any(is_mixed(o) for o in others):
+        return False
+    b = build_bs(st)
+    for o in others:
+        c = build_bs(o)
+        if b == c or c == b:
+            return True
+    return False
+
+
 def gen_terms(rng, m, nmax, ntags, k, equal_n, used, mixed=False):
     """k distinct basis states (not in `used`), with rescaled rational coefficients"""
     terms = []
     n0 = rng.randint(1, nmax)
     tries = 0
+    seen_states = used.states if isinstance(used, UsedSet) else []
     while len(terms) < k and tries < 200:
         tries += 1
         n = n0 if equal_n else rng.randint(0, nmax)
@@ -305,7 +329,10 @@ def gen_terms(rng, m, nmax, ntags, k, equal_n, used, mixed=False):
         key = canon_key(st)
         if key in used:
             continue
+        if mixed and native_clash(st, seen_states):
+            continue
         used.add(key)
+        seen_states.append(st)
         terms.append({"coef": gen_coef(rng), "state": st})
     return terms
 
@@ -540,7 +567,7 @@ def gen_case(rng, chk, kind, prec, fixed=None, mixed=False):
     elif kind == "sv":
         ntags = rng.choice([0, 0, 1, 2, 3]) if not mixed else rng.choice([1, 2, 2, 3])
         nm = min(nmax, 3)
-        terms = gen_terms(rng, m, nm, ntags, rng.randint(2, 3), rng.random() < 0.5, set(), mixed)
+        terms = gen_terms(rng, m, nm, ntags, rng.randint(2, 3), rng.random() < 0.5, UsedSet(), mixed)
         if len(terms) < 2:
             terms = [{"coef": ["1", "0"], "state": [[0]] + [[] for _ in range(m - 1)]},
                      {"coef": ["1/2", "1"], "state": [[] for _ in range(m - 1)] + [[0]]}]
@@ -553,7 +580,7 @@ def gen_case(rng, chk, kind, prec, fixed=None, mixed=False):
         superposed = rng.random() < 0.5
         ntags = rng.choice([0, 1, 2, 3]) if not mixed else rng.choice([1, 2, 2, 3])
         nm = min(nmax, 3)
-        used = set()
+        used = UsedSet()
         members = []
         ws = gen_weights(rng, k, normalised=(rng.random() < 0.7))
         for w in ws:
@@ -613,14 +640,14 @@ def gen_dm_members(rng, m, nm, force_n=None, first=None):
     `first`: a basis state that must be populated"""
     for _ in range(30):
         k = rng.randint(1, 4)
-        used = set()
+        used = UsedSet()
         members = []
         # a superposed member with a weak term (population below 1e-6, amplitude not negligible), mostly of the photon
         # number of a dominant term so that the two interfere in the output populations
         weak = rng.random() < 0.45
         for w in gen_weights(rng, k, normalised=(rng.random() < 0.8)):
             if rng.random() < 0.4:
-                used = set()
+                used = UsedSet()
             equal_n = rng.random() < (0.8 if weak else 0.5)
             nt = rng.randint(2, 3) if weak else rng.randint(1, 3)
             terms = gen_terms(rng, m, nm if force_n is None else force_n, 0, nt, equal_n, used)
@@ -1158,6 +1185,14 @@ def judge_one(chk, case, rep, sim, circuit, u):
     fails = []
     if "err" in rep:
         raise core.LeanError(f"model rejected a well-formed case: {rep['err']}")
+    # outside the property: two basis states of the input that exqalibur's (asymmetric) equality identifies in one
+    # direction - what the native StateVector / SVDistribution then holds depends on the order of insertion
+    sts = [t["state"] for mb in case.get("members", []) for t in mb.get("terms", [])]
+    if any(is_mixed(x) for x in sts):
+        for i, x in enumerate(sts):
+            if native_clash(x, [y for y in sts[:i] if y != x]):
+                chk.count("skipped", "native-equality-asymmetric")
+                return fails
 
     def record(sig, what, spec_agrees, prop_fails, detail=None):
         k = "violation" if (prop_fails or spec_agrees) else "broken"
